@@ -55,7 +55,7 @@ def dcoefs(rule, kmax):
 def check_config(method, n, order, ratio):
     """Returns dict(status, problems=[(kind, text)], nontrivial, singular)"""
     import numdifftools.finite_difference as fdm
-    fdm.FD_RULES.clear()
+    fw.fresh_library_state()
     rule = fdm.LogRule(n=n, method=method, order=order)
     mo, rs = rule.method_order, rule.richardson_step
     r_e = make_exact(ratio)
